@@ -65,15 +65,45 @@ FLAVORS = [('ok', 46), ('custom-unit', 8), ('fail-dtype', 8), ('fail-dimension',
 _counter = itertools.count()
 
 
+def doc_examples():
+    """documented modification examples (docs/source/dip/syntax/nodes.rst, units.rst; tests/dip/test_finalizing.py)
+    as programs with the documented final (value, unit)"""
+    from vt.props.c13 import _F
+    nd = lambda p, dt, u0: {'path': [p], 'dt': dt, 'sfx': [''] if dt == 'float' else ['', ''], 'kw': dt, 'u0': u0, 'shape': None}
+    i = lambda v: {'t': 'int', 'v': v, 'plus': False}
+    prog = {'units': [], 'flavor': 'ok', 'nodes': [nd('size', 'float', 'cm'), nd('energy', 'float', 'J'), nd('weight', 'float', 'kg'),
+                                                  nd('age', 'int', 's'), nd('mass', 'float', 'kg')],
+            'stmts': [_st(0, 'def', 'float', 'float', _F('70'), 'cm'), _st(0, 'mod', 'float', 'float', _F('80'), 'cm', typed=True),
+                      _st(0, 'mod', 'float', 'float', _F('90'), 'cm'), _st(0, 'mod', 'float', 'float', _F('100')),
+                      _st(0, 'mod', 'float', 'float', _F('1'), 'm'),
+                      _st(1, 'def', 'float', 'float', _F('1.23'), 'J'), _st(1, 'mod', 'float', 'float', _F('2.2'), 'erg'),
+                      _st(1, 'mod', 'float', 'float', _F('2.2'), 'g*cm2/s2'),
+                      _st(2, 'decl', 'float', 'float', None, 'kg'), _st(2, 'mod', 'float', 'float', _F('88')),
+                      _st(3, 'def', 'int', 'int', i(30), 's'), _st(3, 'mod', 'int', 'int', i(35)),
+                      _st(4, 'def', 'float', 'float', _F('80'), 'kg'), _st(4, 'mod', 'float', 'float', _F('90000'), 'g')]}
+    documented = [('size', 100.0, 'cm'), ('energy', 2.2e-7, 'J'), ('weight', 88.0, 'kg'), ('age', 35, 's'), ('mass', 90.0, 'kg')]
+    return [('modification examples', prog, documented)]
+
+
 def setup():
     from scinumtools.dip import DIP, Format
     from vt.monitors.tables import Hygiene
+    for name, prog, documented in doc_examples():
+        res = C.interpret(prog)
+        got = [(e['path'], e['value'], e['unit']) for e in res[1]] if res[0] == 'ok' else res
+        if res[0] != 'ok' or len(got) != len(documented) or not all(a[0] == b[0] and close(a[1], b[1], 1e-12) and a[2] == b[2]
+                                                                     for a, b in zip(got, documented)):
+            raise AssertionError('reference model disagrees with documented example %s: %r' % (name, got))
     return dict(DIP=DIP, Format=Format, hyg=Hygiene(), guard=M.StepGuard(), shard=None)
 
 
 def cases(rng, tier, shard, nshards, ctx):
     ctx['shard'] = shard
     names, weights = [f for f, _ in FLAVORS], [w for _, w in FLAVORS]
+    if shard == 0:
+        for name, prog, documented in doc_examples():
+            yield dict(prog=prog, r=1, plain=True)
+            yield dict(prog=prog, r=rng.randrange(1 << 30))
     for _ in range(NCASES[tier] // nshards):
         fl = rng.choices(names, weights)[0]
         yield dict(prog=C.gen_case_prog(rng, fl), r=rng.randrange(1 << 30))
